@@ -22,7 +22,7 @@ EXTENDS Exact, Json
 CONSTANTS Dims,      \* subset of 2..6
           Ops,       \* enabled API calls
           NPat,      \* number of integer-pattern operands besides the basis
-          Phases,    \* multiples of pi/4 used as times / angles
+          PhaseCode, \* multiples of pi/4 used as times / angles, offset by 5000 (cfg files cannot hold negative numbers)
           NSpec,     \* number of spectra for evolve
           Chain,     \* maximum number of chained calls (1 = single call)
           RotMode,   \* "all" = every residue pair, "seed" = pseudo-random subset
@@ -32,11 +32,13 @@ VARIABLES d, A, B, R, s, act, stage, n
 
 vars == <<d, A, B, R, s, act, stage, n>>
 
+Phases == {x - 5000 : x \in PhaseCode}
+
 NoAct == [op |-> "none", p |-> <<0,0,0,0>>, h |-> <<>>]
 
 UnaryOps  == {"tomatrix","neg","scale","div","transpose","real","imag","evolve","rotate","tob1","tob0","selfcheck"}
 BinaryOps == {"add","sub","icom","acom","trace","eq","evoliso","rotiso"}
-FactoryOps == {"projector","identity","generator","posproj","negproj"}
+FactoryOps == {"projector","identity","generator","posproj","negproj","mixing"}
 
 --------------------------------------------------------------------------
 \* spectra for evolution: s = 0 zero, 1 distinct, 2 fully degenerate, 3 pairs, else pseudo-random in 0..3
@@ -158,6 +160,8 @@ Factory == /\ stage = 0
               \/ "generator" \in Ops /\ \E k \in 0..(d*d-1) : Done("generator",<<k,0,0,0>>,<<>>,Basis(d,k),S0)
               \/ "posproj" \in Ops /\ \E k \in 0..(d-1) : Done("posproj",<<k,0,0,0>>,<<>>,PosProjM(d,k),S0)
               \/ "negproj" \in Ops /\ \E k \in 0..(d-1) : Done("negproj",<<k,0,0,0>>,<<>>,NegProjM(d,k),S0)
+              \/ "mixing" \in Ops /\ \E q \in 0..(NSpec-1) :
+                    Done("mixing",<<q,0,0,0>>,AngTh(q,d) \o AngPh(q,d),MixU(d,AngTh(q,d),AngPh(q,d)),S0)
 
 \* chained mode: the result becomes the next first operand (second operand kept)
 Continue == /\ stage = 3 /\ n < Chain /\ act.op \notin (FactoryOps \cup {"trace","eq"})
@@ -188,7 +192,7 @@ Emit == IF stage' = 3
 \* Laws (each guarded by the call it speaks about)
 TypeOK == d \in 2..6 /\ stage \in 0..3
 
-BasisInv == (stage = 0) => BasisOK(d)
+BasisInv == (stage = 0) => BasisOK(d) /\ CombOK(d)
 
 \* C01: every operand and every linear result is Hermitian; matrix <-> coordinates round trip;
 \*      Real + Imag = id ; transpose is an involution and maps to the conjugate for Hermitian matrices
@@ -240,7 +244,8 @@ LawRotate ==
     /\ MEq(RotateM(R,d,i,j,-kt,kd), A, d)
     /\ SEq(TrProd(R, RotateM(Partner,d,i,j,kt,kd), d), TrProd(A,Partner,d))
 LawMixing ==
-  (stage = 3 /\ act.op \in {"tob1","tob0"}) =>
+  /\ (stage = 3 /\ act.op = "mixing") => MEq(MMul(Dagger(R,d),R,d), MId(d), d) /\ MEq(MMul(R,Dagger(R,d),d), MId(d), d)
+  /\ (stage = 3 /\ act.op \in {"tob1","tob0"}) =>
     LET q == act.p[1]  U == MixU(d,AngTh(q,d),AngPh(q,d)) IN
     /\ MEq(MMul(Dagger(U,d),U,d), MId(d), d)
     /\ MIsHerm(R,d) /\ SEq(MTr(R,d), MTr(A,d))
